@@ -29,14 +29,20 @@
 (* connection's own response / idle timers (configured beyond the horizon). *)
 EXTENDS ClientDgram, FiniteSets
 
-CONSTANTS MRT,       \* multi_stream response timeout in ticks
-          MReqs,     \* request numbers, e.g. 1..2
+(*                                                                          *)
+(* The budgets are the configured ones: a run starts from a configuration   *)
+(* script (ClientConfig: MsScript for multi_stream, XScript for             *)
+(* dgram_stream); the response timeout in force is what the script leaves.  *)
+CONSTANTS MReqs,     \* request numbers, e.g. 1..2
           MaxConn    \* bound on connect() calls
 
 NoReq == [st |-> "none", el |-> 0, cnt |-> 0, cid |-> -1, on |-> 0, q |-> 0]
 
-MInitState ==
-  [reqs |-> [r \in MReqs |-> NoReq],
+\* the configuration in force after script sc: rt = response timeout in ticks
+MConfOf(sc) == LET eff == MsRun(sc) IN [sc |-> sc, eff |-> eff, rt |-> TicksUp(eff.rt, TickMs)]
+MInitOf(sc) ==
+  [conf |-> MConfOf(sc),
+   reqs |-> [r \in MReqs |-> NoReq],
    chan |-> <<>>,                         \* NewConn commands: [r, id]
    cs |-> [k |-> "None", c |-> 0, fresh |-> FALSE],   \* conn_state
    connid |-> 0,
@@ -88,7 +94,7 @@ MServe(m) ==
                              !.nconnect = @ + 1]
 
 \* one step of whoever can run; requests in numeric order, then the transport
-MTimedOut(m) == {r \in MReqs : Active(m, r) /\ m.reqs[r].el >= MRT}
+MTimedOut(m) == {r \in MReqs : Active(m, r) /\ m.reqs[r].el >= m.conf.rt}
 MWanting(m)  == {r \in MReqs : m.reqs[r].st = "wantconn"}
 MinOf(S) == CHOOSE x \in S : \A y \in S : x <= y
 
@@ -172,9 +178,11 @@ MAtMostOnceOf(m) == \A r \in MReqs : /\ Len(m.done[r]) <= 1
 \* after submission; a response only before it; nothing pending beyond it
 MOnTimeOf(m) ==
   /\ \A r \in MReqs : \A k \in 1..Len(m.done[r]) :
-        /\ m.done[r][k].t <= MRT
-        /\ m.done[r][k].ok => m.done[r][k].t < MRT
-  /\ MPick(m) = "none" => \A r \in MReqs : Active(m, r) => m.reqs[r].el < MRT
+        /\ m.done[r][k].t <= m.conf.rt
+        /\ m.done[r][k].ok => m.done[r][k].t < m.conf.rt
+  /\ MPick(m) = "none" => \A r \in MReqs : Active(m, r) => m.reqs[r].el < m.conf.rt
+  /\ MsHonoured(m.conf.sc, m.conf.eff)
+  /\ (m.conf.rt - 1) * TickMs < m.conf.eff.rt
 \* a request waits on at most one connection, and only where it was written
 MOwnOf(m) ==
   \A r \in MReqs : m.reqs[r].st = "getresult" =>
@@ -189,8 +197,8 @@ MNoDupOf(m) ==
 (* dgram_stream: UDP first (ClientDgram), TCP (multi_stream, request 1) iff *)
 (* the UDP answer is truncated.                                             *)
 
-XInitState(f) == [ph |-> "idle", d |-> DInitState(f), m |-> MInitState,
-                  t |-> 0, done |-> <<>>]
+XInitState(f, xsc) == [ph |-> "idle", d |-> DInitState(f, xsc.dg), m |-> MInitOf(xsc.ms),
+                       conf |-> [sc |-> xsc, eff |-> XRun(xsc)], t |-> 0, done |-> <<>>]
 
 XOut(ok, via, tc, rc, t) == [ok |-> ok, via |-> via, tc |-> tc, rcode |-> rc, t |-> t]
 
@@ -200,7 +208,7 @@ XAfterUdp(x, d2) ==
   ELSE LET o == d2.done[1]
        IN IF o.ok /\ o.f.tc
           THEN [x EXCEPT !.d = d2, !.ph = "tcp",
-                         !.m = MQuiesce(MSubmitOp(MInitState, 1, d2.q))]
+                         !.m = MQuiesce(MSubmitOp(x.m, 1, d2.q))]
           ELSE [x EXCEPT !.d = d2, !.ph = "done",
                          !.done = <<XOut(o.ok, "udp", o.ok /\ o.f.tc,
                                          IF o.ok THEN o.f.rcode ELSE 0, x.t)>>]
@@ -226,8 +234,11 @@ XAtMostOnceOf(x)  == Len(x.done) <= 1 /\ (x.ph = "done" <=> Len(x.done) = 1)
 XTcpOnlyAfterTcOf(x) == x.m.nconnect > 0 =>
                           (x.d.ph = "done" /\ x.d.done[1].ok /\ x.d.done[1].f.tc)
 \* budget: UDP budget plus the stream response timeout
-XOnTimeOf(x) == \A k \in 1..Len(x.done) :
-                  x.done[k].t <= (1 + MaxRetries) * RD + MRT
+XOnTimeOf(x) == /\ \A k \in 1..Len(x.done) :
+                     x.done[k].t <= (1 + MRof(x.d)) * RDof(x.d) + x.m.conf.rt
+                \* both legs run under the configuration handed to dgram_stream
+                /\ XHonoured(x.conf.sc, x.conf.eff)
+                /\ x.d.conf.eff = x.conf.eff.dg /\ x.m.conf.eff = x.conf.eff.ms
 --------------------------------------------------------------------------
 (* redundant and load_balancer (src/net/client/redundant.rs,                *)
 (* load_balancer.rs) over abstract upstreams (assume/guarantee: an upstream *)
